@@ -32,13 +32,21 @@ def unh(s):
     return b"" if s == "-" else bytes.fromhex(s)
 
 
-def regen(ctx):
+def regen_params(ctx):
     import x_c02
     importlib.reload(x_c02)
     ctx.regen("Bee2V/Gen/C02Params.lean", x_c02.generate(vcommon.REPO))
+
+
+def regen_skel(ctx):
     import x_c02_skel
     importlib.reload(x_c02_skel)
     ctx.regen("Bee2V/Gen/C02Skel.lean", x_c02_skel.generate(vcommon.REPO))
+
+
+def regen(ctx):
+    regen_params(ctx)
+    regen_skel(ctx)
 
 
 # ------------------------------------------------------------------ Python reference: curve arithmetic
@@ -527,6 +535,11 @@ class Gen:
         for lab, s1x in alts if (full or self.thorough or "lab" in m) else alts[n % 2: n % 2 + 2]:
             if s1x < cv.W and s1x != s1:
                 v(oid, H, sig[:h2] + cv.n2b(s1x), Q, lab)
+        if m.get("lab", "").startswith("s1=0") and s1 == 0:
+            # s1 = q is then the consistent range violation s1 + q: only the test s1 < q rejects it (also in bignIdExtract)
+            sq = sig[:h2] + cv.n2b(q)
+            add("idext %d %s %s %s %s" % (ci, hx(oid), hx(H), hx(sq), hx(Q)), kind="idext-alt", cv=cv, vargs=(oid, H, sq, Q))
+            self.count("one-check:s1+q consistent (idext)")
         Hn = int.from_bytes(H, "little")
         for lab, Hx in [("H+q", Hn + q), ("H-q", Hn - q)]:       # same residue modulo q, different octets: must be rejected (hash input differs)
             if 0 <= Hx < cv.W:
@@ -979,14 +992,21 @@ def corpus_lines():
 
 
 def run(ctx):
-    translator_error = None
+    params_error = skel_error = None
     try:
-        regen(ctx)
+        regen_params(ctx)
     except Exception as e:
-        translator_error = "%s: %s" % (type(e).__name__, e)
+        params_error = "x_c02: %s: %s" % (type(e).__name__, e)
+    try:
+        regen_skel(ctx)
+    except Exception as e:       # the structure of a bign function changed: the obligations of PropsSkel cannot be regenerated
+        skel_error = "x_c02_skel: %s: %s" % (type(e).__name__, e)
+    translator_error = params_error or skel_error
     if translator_error:
         proof_ok, log = False, "translator: " + translator_error
         ctx.obligations += [(n, None) for rel in PROPS for n in ctx.theorems_of(rel)]
+        if not params_error:
+            ctx.lake_build(["drv_c02"])          # the model itself is intact: keep the correspondence and the directed inputs running
     else:
         proof_ok, log = ctx.prove(TARGETS, PROPS)
     exe = ctx.cc("harness/c02.c", "asan")
@@ -997,8 +1017,8 @@ def run(ctx):
             raise RuntimeError("c02 harness failed on a helper query: " + err[-400:])
         return out
 
-    have_driver = (not translator_error) and os.path.exists(ctx.driver())
-    cvs = curves() if not translator_error else []
+    have_driver = (not params_error) and os.path.exists(ctx.driver())
+    cvs = curves() if not params_error else []
     g = Gen(ctx, cvs, run_c)
     srch = Search(ctx, run_c)
     all_mism, distinct, nops = [], set(), 0
@@ -1150,7 +1170,7 @@ def c19_stream():
         stream = corpus_lines()
         oo = operable_ops(ctx, g.cvs)
         stream += [oo[i] for i in sorted(rng.sample(range(len(oo)), min(30, len(oo))))]
-        o1, m1 = thin(*g.stage1(), fr=(0.25, 0.08, 0.06))
+        o1, m1 = thin(*g.stage1(), fr=(0.18, 0.06, 0.05))
         c1 = run_c(o1)
         o2, m2 = thin(*g.stage2(o1, m1, c1), fr=(0.25, 0.10, 0.08))
         c2 = run_c(o2)
